@@ -100,8 +100,10 @@ def parseIncludedFiles (fs : FS) (parse : String → Parsed) (search env : Optio
     Nat → List (Option (Option String)) → Except Outcome (List PSrc)
   | 0, _ => .error .fuel
   | _ + 1, [] => .ok []
-  | _ + 1, none :: _ => .error (.panic "parse_included_files: include.file() is None")
-  | _ + 1, some none :: _ => .error (.panic "parse_included_files: file.to_string() is None")
+  -- an include statement without a (well-formed) path: reported by the parser, nothing to read
+  -- (`include.file()?`, `file.to_string()?` since the repair of finding F16)
+  | fuel + 1, none :: rest => parseIncludedFiles fs parse search env fuel rest
+  | fuel + 1, some none :: rest => parseIncludedFiles fs parse search env fuel rest
   | fuel + 1, some (some filePath) :: rest =>
     if filePath == "stdgates.inc" then parseIncludedFiles fs parse search env fuel rest
     else
